@@ -14,6 +14,35 @@ EXN = {'KeyError': 'KeyError', 'IndexError': 'IndexError', 'TypeError': 'TypeErr
 # ----------------------------------------------------------------------------------------
 # recipes -> geometries (public mulgrid API only)
 # ----------------------------------------------------------------------------------------
+def canon_cols(geo):
+    """The columns in an order that does not depend on the library's (set-iteration dependent) column
+    order and naming after refine(): sorted by centroid position.  Recipes refer to columns by their index
+    in this list at the moment the operation is applied."""
+    sc = max([1.0] + [abs(float(v)) for n in geo.nodelist for v in n.pos])
+
+    def key(c):
+        xs = [float(n.pos[0]) for n in c.node]; ys = [float(n.pos[1]) for n in c.node]
+        return (round(sum(xs) / len(xs) / sc * 1e7), round(sum(ys) / len(ys) / sc * 1e7), c.num_nodes)
+    return sorted(geo.columnlist, key=key)
+
+
+def canon_nodes(col):
+    return sorted(col.node, key=lambda n: (float(n.pos[0]), float(n.pos[1])))
+
+
+def blockmap_of(geo, spec):
+    """recipe block map (positional: [layer index, canonical column index, new name]; ['atm', new name] for the
+    single atmosphere block; ['raw', key, new name] for a key that names no block) -> dict of names"""
+    if spec is None: return None
+    cc = canon_cols(geo)
+    bm = {}
+    for e in spec:
+        if e[0] == 'raw': bm[e[1]] = e[2]
+        elif e[0] == 'atm': bm[geo.block_name(geo.layerlist[0].name, geo.atmosphere_column_name)] = e[1]
+        else: bm[geo.block_name(geo.layerlist[e[0]].name, cc[e[1]].name)] = e[2]
+    return bm
+
+
 def build_geo(recipe, repo):
     """Deterministically rebuild the geometry a recipe describes.  Returns (geo, blockmap or None)."""
     from mulgrids import mulgrid
@@ -49,6 +78,20 @@ def build_geo(recipe, repo):
             geo.atmosphere_volume = op[1]
         elif k == 'atmconn':
             geo.atmosphere_connection = op[1]
+        elif k == 'convert':
+            # an earlier use of the same geometry object: converted once, result dropped
+            from t2grids import t2grid
+            t2grid().fromgeo(geo)
+        elif k == 'split':
+            # a quadrilateral column split into two triangles (moves the retained column's centre, keeps connection objects)
+            col = canon_cols(geo)[op[1]]
+            geo.split_column(col.name, canon_nodes(col)[op[2]].name)
+        elif k == 'move_centre':
+            # column centres assigned (a MULgraph file may specify them): towards one of the column's own nodes
+            cc = canon_cols(geo)
+            for i, j, f in op[1]:
+                col = cc[i]
+                col.centre = col.centre + f * (canon_nodes(col)[j].pos - col.centre)
         elif k == 'copy_layers':
             # the layer structure is replaced by that of another geometry (columns keep their surfaces)
             other = mulgrid().rectangular([1.0], [1.0], list(op[1]), origin=[0.0, 0.0, op[2]], convention=geo.convention,
@@ -61,7 +104,8 @@ def build_geo(recipe, repo):
             geo.setup_block_name_index()
             geo.setup_block_connection_name_index()
         elif k == 'rename_col':
-            geo.rename_column([geo.columnlist[i].name for i, _ in op[1]], [n for _, n in op[1]])
+            cc = canon_cols(geo)
+            geo.rename_column([cc[i].name for i, _ in op[1]], [n for _, n in op[1]])
         elif k == 'centres':
             # layer centres off the mid-point (a MULgraph file gives each layer's centre separately)
             for i, f in op[1]:
@@ -69,16 +113,16 @@ def build_geo(recipe, repo):
                 lay.centre = lay.bottom + f * (lay.top - lay.bottom)
         elif k == 'surface':
             # explicit elevations per column index, then the documented refresh calls
+            cc = canon_cols(geo)
             for i, s in op[1]:
-                col = geo.columnlist[i]
+                col = cc[i]
                 col.surface = s
                 geo.set_column_num_layers(col)
             geo.setup_block_name_index()
             geo.setup_block_connection_name_index()
         else:
             raise ValueError('unknown recipe op %r' % (op,))
-    bm = recipe.get('blockmap')
-    return geo, (dict(bm) if bm is not None else None)
+    return geo, blockmap_of(geo, recipe.get('blockmap'))
 
 
 def rnd_spacings(rng, n):
@@ -115,7 +159,7 @@ def choose_surfaces(rng, geo, mode):
     a, b = rng.uniform(-1, 1), rng.uniform(-1, 1)
     cx = [c.centre[0] for c in geo.columnlist]; cy = [c.centre[1] for c in geo.columnlist]
     x0, x1, y0, y1 = min(cx), max(cx), min(cy), max(cy)
-    for i, col in enumerate(geo.columnlist):
+    for i, col in enumerate(canon_cols(geo)):
         if mode == 'some' and rng.random() < 0.5: continue
         r = rng.random()
         if mode == 'slope':
@@ -181,6 +225,20 @@ def gen_recipe(rng, kind=None, repo='/repo', big=False):
             if len(sel) == geo.num_columns: sel = []
         ops.append(('refine', sel))
         if rng.random() < 0.25: ops.append(('refine_layers', sorted(rng.sample(range(1, geo.num_layers), rng.randint(1, min(2, geo.num_layers - 1)))), 2))
+    if rng.random() < 0.3:
+        # the geometry object is USED (converted once) and then edited in ways that move column centres
+        # while the connection objects stay: the conversion under test is the later one
+        ops.append(('convert',))
+        if rng.random() < 0.7:
+            for _ in range(rng.choice([1, 1, 2, 3])):
+                quads = [i for i, c in enumerate(canon_cols(rebuild())) if c.num_nodes == 4]      # indices as they are NOW
+                if not quads: break
+                ops.append(('split', rng.choice(quads), rng.randrange(4)))
+        if rng.random() < 0.5:
+            g0 = rebuild()
+            cc0 = canon_cols(g0)
+            ops.append(('move_centre', [(i, rng.randrange(cc0[i].num_nodes), rng.uniform(0.05, 0.3))
+                                        for i in sorted(rng.sample(range(g0.num_columns), min(g0.num_columns, rng.choice([1, 2, 4]))))]))
     if base['kind'] == 'file':
         if rng.random() < 0.7: ops.append(('atm', rng.randrange(3)))
         geo = rebuild()
@@ -220,6 +278,7 @@ def gen_recipe(rng, kind=None, repo='/repo', big=False):
     if surf and rng.random() < 0.15:
         again = choose_surfaces(rng, rebuild(), 'some')            # surfaces reassigned
         if again: ops.append(('surface', again))
+    if rng.random() < 0.15: ops.append(('convert',))                   # used once more before the last assignments
     # configuration reached by assignment on the finished geometry (no refresh calls of ours after these):
     geo = rebuild()
     if rng.random() < 0.35:
@@ -238,19 +297,26 @@ def gen_recipe(rng, kind=None, repo='/repo', big=False):
         ops.append(('rename_col', ren))
     geo = rebuild()
     if rng.random() < 0.45:
-        names = list(geo.block_name_list)
+        cc = canon_cols(geo)
+        where = {}
+        for li, lay in enumerate(geo.layerlist):
+            for ci, col in enumerate(cc): where.setdefault(geo.block_name(lay.name, col.name), (li, ci))
+        names = sorted(geo.block_name_list, key=lambda n: where.get(n, (-1, -1)))      # an order that does not depend on names
         used = set(names)
         m = rng.choice([1, 2, max(1, len(names) // 4), len(names)])
-        bm = {}
-        for n in rng.sample(names, min(m, len(names))): bm[n] = rnd_name5(rng, used)
-        if rng.random() < 0.3: bm[rnd_name5(rng, used)] = rnd_name5(rng, used)    # an unused key
-        recipe['blockmap'] = sorted(bm.items())
+        spec = []
+        for n in rng.sample(names, min(m, len(names))):
+            spec.append(list(where[n]) + [rnd_name5(rng, used)] if n in where else ['atm', rnd_name5(rng, used)])
+        if rng.random() < 0.3: spec.append(['raw', rnd_name5(rng, used), rnd_name5(rng, used)])    # an unused key
+        recipe['blockmap'] = spec
     elif rng.random() < 0.2:
         recipe['blockmap'] = []                                               # explicit empty map
     recipe['mode'] = mode
     recipe['kind'] = kind
-    bmap = dict(recipe['blockmap']) if recipe['blockmap'] is not None else None
-    return recipe, geo, bmap
+    # how the conversion under test is made: on a fresh grid; as a SECOND conversion after the first grid was
+    # built and scribbled over by its owner; on a grid object that already held another model
+    recipe['use'] = rng.choices(['fresh', 'again', 'reuse'], [60, 25, 15])[0]
+    return recipe, geo, blockmap_of(geo, recipe['blockmap'])
 
 
 # ----------------------------------------------------------------------------------------
@@ -361,11 +427,30 @@ def close(a, b, scale=0.0):
 # ----------------------------------------------------------------------------------------
 # implementation side
 # ----------------------------------------------------------------------------------------
-def run_impl(geo, blockmap):
-    """t2grid().fromgeo(geo[, blockmap]) -> (grid, None) or (None, exception class name)."""
+def run_impl(geo, blockmap, use='fresh'):
+    """t2grid().fromgeo(geo[, blockmap]) -> (grid, None) or (None, exception class name).
+    use='again': the grid under test is the SECOND one built from this geometry (same block map object), after the
+    first one was built and its owner wrote into its mutable fields (distances, centres): nothing may be shared
+    between two grids or between a grid and the geometry, and nothing may be remembered from the first call.
+    use='reuse': the grid object already holds another model when fromgeo is called on it."""
     from t2grids import t2grid
     try:
-        grid = t2grid().fromgeo(geo) if blockmap is None else t2grid().fromgeo(geo, dict(blockmap))
+        bm = None if blockmap is None else dict(blockmap)
+        conv = (lambda g: g.fromgeo(geo)) if bm is None else (lambda g: g.fromgeo(geo, bm))
+        if use == 'again':
+            first = conv(t2grid())
+            for c in first.connectionlist:
+                c.distance[0] += 1.0; c.distance[1] *= 3.0
+            for b in first.blocklist:
+                if b.centre is not None: b.centre += 1.0
+            grid = conv(t2grid())
+        elif use == 'reuse':
+            from mulgrids import mulgrid
+            grid = t2grid().fromgeo(mulgrid().rectangular([7.0, 9.0], [11.0], [3.0, 4.0], atmos_type=0, convention=1))
+            grid = conv(grid)
+        else:
+            grid = conv(t2grid())
+        if bm is not None and bm != dict(blockmap): return None, 'BlockmapMutated'
         return grid, None
     except Exception as e:
         return None, type(e).__name__
